@@ -11,6 +11,7 @@ import (
 	"os"
 	"sort"
 	"strings"
+	"sync/atomic"
 	"time"
 
 	"github.com/jeroenrinzema/psql-wire/pkg/verifshim/vsched"
@@ -59,7 +60,11 @@ func choicesOf(x *vsched.Exec) []int {
 }
 
 // RunOnce executes the scenario under the given schedule prefix.
+// execsDone counts finished executions (the worker's watchdog looks at it).
+var execsDone atomic.Int64
+
 func RunOnce(sc *Scenario, prefix []int, verbose bool) (*vsched.Exec, Verdict) {
+	defer execsDone.Add(1)
 	body, judge := sc.New()
 	max := sc.MaxSteps
 	if max == 0 {
@@ -74,7 +79,8 @@ func RunOnce(sc *Scenario, prefix []int, verbose bool) (*vsched.Exec, Verdict) {
 		v.Violations = append(v.Violations, explore.Violation{Clause: "livelock", Detail: fmt.Sprintf("the execution did not finish within %d scheduling steps", max)})
 	}
 	if vsched.Unsupported != "" {
-		v.Violations = append(v.Violations, explore.Violation{Clause: "ENGINE-unsupported", Detail: vsched.Unsupported})
+		// nothing observed in an execution the scheduler did not control is a verdict
+		v.Violations = []explore.Violation{{Clause: "ENGINE-unsupported", Detail: vsched.Unsupported}}
 	}
 	return x, v
 }
